@@ -133,11 +133,21 @@ def _verify_alternative(registry, repo, contract, mod, fnode, cnode, names, comb
     for lem in contract.entry_lemmas:
         st.assume(registry.eval_clause(interp, st, lem))
     # vacuity guard: the precondition must be satisfiable
-    s = z3.Solver()
-    s.set("timeout", 20000)
+    s = z3.Tactic("default").solver()
+    s.set("timeout", 4000)
     for h in st.hyps():
         s.add(h)
     r = s.check()
+    if r == z3.unknown:
+        # quantified lemmas make satisfiability hard to show: check the precondition without the entry lemmas
+        s2 = z3.Tactic("default").solver()
+        s2.set("timeout", 4000)
+        n_lem = len(contract.entry_lemmas)
+        for h in (st.hyps()[:-n_lem] if n_lem else st.hyps()):
+            s2.add(h)
+        r2 = s2.check()
+        if r2 == z3.sat:
+            r = "sat-without-lemmas"
     rep.vacuity["requires_sat"] = str(r) if rep.vacuity["requires_sat"] in (None, "sat") else rep.vacuity["requires_sat"]
     if r == z3.unsat:
         rep.status = "error"
